@@ -44,11 +44,11 @@ type pktJ struct {
 }
 
 type c05Case struct {
-	Sender uint32    `json:"sender"`
-	Ops    []op      `json:"ops"`
-	Outs   [][]pktJ  `json:"outs"`
-	Note   string    `json:"note,omitempty"`
-	fails  []string  // implementation failures seen while running
+	Sender uint32   `json:"sender"`
+	Ops    []op     `json:"ops"`
+	Outs   [][]pktJ `json:"outs"`
+	Note   string   `json:"note,omitempty"`
+	fails  []string // implementation failures seen while running
 	nrec   int
 	nbuild int
 	npkt   int
@@ -529,7 +529,7 @@ func main() {
 		cq.LoadReplay(f, &c)
 		add(run(c.Sender, c.Ops), "corpus:"+filepath.Base(f))
 	}
-	nb := o.Scale(480, 40000)
+	nb := o.Scale(400, 3000)
 	if o.N > 0 { // -n (search campaigns of bin/check): split the volume, no 8192-record runs
 		nb = o.N / 2
 	}
@@ -537,7 +537,7 @@ func main() {
 		ops, bs := genBoundary(r, i)
 		add(run(uint32(r.Intn(1<<16)), ops), bs...) //nolint:gosec
 	}
-	ns := o.Scale(520, 150000)
+	ns := o.Scale(440, 4000)
 	if o.N > 0 {
 		ns = o.N - o.N/2
 	}
@@ -546,7 +546,7 @@ func main() {
 		ops, bs := genStructured(r)
 		add(run(uint32(r.Intn(1<<16)), ops), bs...) //nolint:gosec
 	}
-	nl := o.Scale(0, 4)
+	nl := o.Scale(0, 2)
 	if o.N > 0 {
 		nl = 0
 	}
